@@ -58,10 +58,10 @@ def model_outcome(m):
     return ('lib', ERRNAME.get(m[0], '?')) if m[0] in (2, 3, 4, 5, 6) else ('internal', m[0])
 
 
-def run_builds(cases, hashseed=0, order_seed=None, timeout=1800, twice=False, cwd=None):
+def run_builds(cases, hashseed=0, order_seed=None, timeout=1800, twice=False, cwd=None, extra_env=None):
     """cases: list of dict(file=, cfg=). Returns (impl outcomes, model outcomes)."""
     reqs = [{'op': 'build', 'file': c['file'], 'cfg': c['cfg'], 'order_seed': order_seed, 'twice': twice} for c in cases]
-    impl = run_impl('build_worker', {'cases': reqs}, hashseed=hashseed, timeout=timeout, cwd=cwd)['results']
+    impl = run_impl('build_worker', {'cases': reqs}, hashseed=hashseed, timeout=timeout, cwd=cwd, extra_env=extra_env)['results']
     reqs_model = [[601, templates_for(c['cfg'].get('sf_prefix')), G.json_sx(dznjson.to_json(c['file'])), cfg_sx(c['cfg'])] for c in cases]
     model = run_model(reqs_model, timeout=timeout)
     return [impl_outcome(r) for r in impl], [model_outcome(m) for m in model]
